@@ -269,6 +269,18 @@ def generate(seed, ntypes, nvalues):
     g.types.append({"k": "enum", "name": "TF6", "generic": False, "fields": [], "variants": [
         {"n": "A", "k": "tuple", "ren": "", "fields": [SK("", "u32"), F("", "entity")]},
         {"n": "B", "k": "named", "ren": "", "fields": [F("who", "entity"), SK("tag", "string")]}]})
+    # field names that coincide with identifiers the generated code uses itself (`data`, `ids`, `self`-like
+    # locals), followed by siblings that share name and type with a field of the nested type
+    g.types.append({"k": "named", "name": "TF7P", "generic": False, "variants": [], "fields": [
+        F("amount", "u32"), F("owner", "entity"), F("ids", "u32")]})
+    g.types.append({"k": "named", "name": "TF7", "generic": False, "variants": [], "fields": [
+        F("buyer", "entity"), {"n": "data", "t": ["nested", "TF7P"], "ren": "", "skip": False}, F("amount", "u32"), F("owner", "entity"),
+        F("ids", "u32"), F("func", "u32", skip=True)]})
+    g.types.append({"k": "enum", "name": "TF8", "generic": False, "fields": [], "variants": [
+        {"n": "A", "k": "named", "ren": "", "fields": [F("data", "u32"), {"n": "inner", "t": ["nested", "TF7P"], "ren": "", "skip": False}, F("amount", "u32")]}]})
+    # (a NAMED ENUM VARIANT with a field called `ids` does not compile on the unchanged tree: the generated match arm
+    # binds the fields by name and shadows the conversion closure - a limitation of the derive, not a silent
+    # misbehaviour; such shapes are not generated)
     bytype = {t["name"]: t for t in g.types}
     inst = Inst(g, bytype)
     items = []       # (tid, resolved type, value, rust type expr, rust value expr)
